@@ -172,6 +172,17 @@ impl MemoryManager {
     }
 }
 
+impl Drop for MemoryManager {
+    fn drop(&mut self) {
+        // Nothing can refer to retired objects once the queue itself goes away
+        if let Ok(mut elemvec) = self.wait_to_free.lock() {
+            for val in elemvec.drain(..) {
+                val.delete();
+            }
+        }
+    }
+}
+
 impl Drop for MemoryManagerInner {
     fn drop(&mut self) {
         for val in self.tofree.drain(..) {
